@@ -55,6 +55,9 @@ func (reg *Registry[E]) ReadTagsFrom(r io.Reader) (int64, error) {
 	if err != nil {
 		return n, err
 	}
+	if count < 0 {
+		return n, errors.New("tag count less than zero")
+	}
 
 	var tag pk.Identifier
 	var length pk.VarInt
